@@ -619,6 +619,7 @@ def c06(tier, seed):
                    "--watchdog", 90 if q else 600], weight=4, tag="blockmig%d" % i))
     c.nontrivial = lambda r: True
     c.required_counters = ["joinmix_multi_pool_joins", "joinmix_joins_overlapping_sched_replacement",
+                           "joinmix_two_replacements_back_to_back",
                            "joinmix_revive_idle_work_join_rounds", "blockmig_exact_counter_checks", "migration_requests_pending_when_blocking",
                            "migration_requests_issued_while_blocked", "units_resumed_in_another_pool",
                            "blockmig_step_eventual", "blockmig_step_cond", "blockmig_step_self_suspend",
